@@ -73,7 +73,7 @@ class _HomoskedasticNoiseBase(Noise):
 
         If a "noise" kwarg (a Tensor) is provided, this noise is used directly.
         """
-        if "noise" in kwargs:
+        if kwargs.get("noise") is not None:
             return DiagLinearOperator(kwargs.get("noise"))
         if shape is None:
             p = params[0] if torch.is_tensor(params[0]) else params[0][0]
